@@ -154,6 +154,11 @@ func ParseURI(raw string) (*URI, error) { //nolint:gocognit,cyclop
 		var e *net.AddrError
 		if errors.As(err, &e) {
 			if e.Err == "missing port in address" {
+				// Retry with the default port only if that yields a splittable
+				// address, otherwise the same error recurs without bound.
+				if _, _, retryErr := net.SplitHostPort(rawParts.Opaque + ":0"); retryErr != nil {
+					return nil, err
+				}
 				nextRawURL := uri.Scheme.String() + ":" + rawParts.Opaque
 				switch {
 				case uri.Scheme == SchemeTypeSTUN || uri.Scheme == SchemeTypeTURN:
